@@ -64,7 +64,11 @@ def build_pipes(cfg, val):
             d = val(durs[j])
             m = val(mems[j])
             r = val(reads[j])
-            segs.append([dict(baseline_cpu_seconds=d, cpu_scaling="const", memory_gb=m, storage_read_gb=r)])
+            sj = [dict(baseline_cpu_seconds=d, cpu_scaling="const", memory_gb=m, storage_read_gb=r)]
+            if pc.get("tails"):
+                # a trailing second segment: no CPU time, reads tails[j] GB (floor(GB/20) ticks at 1 tick/s - may be zero ticks)
+                sj.append(dict(baseline_cpu_seconds=0, cpu_scaling="const", memory_gb=m if m is not None else 1, storage_read_gb=val(pc["tails"][j])))
+            segs.append(sj)
         prio = val(pc["prio"])
         p, ops = mk_pipeline(f"p{i+1}", prio, n, bits, segs)
         out.append((val(pc["at"]), p, ops))
